@@ -10,6 +10,8 @@
 //!   * applying the recovered state to a fresh node once or twice gives the GET / HGETALL
 //!     answers of the fold's client view;
 //! and the two arrangements (a permutation / duplication of one another) agree.
+//! Oracle 6 (every arrangement) and the checks `boundary` / `lifecycle` go through the entry point
+//! the server uses: StreamingIntegration::recover into a node + the binary's WAL replay.
 //! Tier `race`: a concurrent writer of the same store (real Compactor::compact, a flush, a
 //! checkpoint install + manifest compaction) runs before every store call index of recovery; the
 //! call returns Err (an undisturbed retry then holds everything) or a state holding everything
@@ -26,6 +28,7 @@ use redis_sim::replication::{
     CrdtValue, LamportClock, ReplicaId, ReplicatedValue, ReplicationConfig, ReplicationDelta,
 };
 use redis_sim::streaming::{
+    StreamingConfig, StreamingIntegration,
     CompactionConfig, Compactor, ListResult, ObjectMeta,
     CheckpointInfo, CheckpointWriter, Compression, InMemoryObjectStore, InMemoryWalStore, Manifest,
     ManifestManager, ObjectStore, RecoveredState, RecoveryManager, SegmentInfo, SegmentWriter,
@@ -705,6 +708,12 @@ fn check_arrangement(
             }
         }
     }
+    // (6) the entry point the server uses: StreamingIntegration::recover into a node, then the
+    // binary's WAL replay; run twice into the same node
+    check_server_startup(name, &b.store, &b.wal, &truth_store, &truth_all, keys, node_replica, modulo)?;
+    if !b.in_checkpoint.is_empty() && b.in_live_segments.is_empty() {
+        ctx.label("checkpoint_and_no_later_segment");
+    }
     Ok((got_all, tolerated, b))
 }
 
@@ -801,6 +810,410 @@ fn check_layout(case: &Layout, ctx: &mut CaseCtx<'_>) -> Result<(), String> {
     Ok(())
 }
 
+
+
+// ---------------------------------------------------------------------------------------
+// the entry point the server uses: StreamingIntegration::recover + WAL replay into a node
+// ---------------------------------------------------------------------------------------
+
+fn streaming_config() -> StreamingConfig {
+    let mut c = StreamingConfig::test();
+    c.prefix = PREFIX.to_string();
+    // no background compaction worker: it runs on the production clock (tombstone GC is C13's)
+    c.compaction.max_segments = 0;
+    c
+}
+
+struct NodeView {
+    /// GET / HGETALL per key after StreamingIntegration::recover (before the WAL replay)
+    after_store: Vec<Reply>,
+    /// ... after the WAL replay src/bin/server_persistent.rs performs
+    after_wal: Vec<Reply>,
+    exists: Vec<Reply>,
+    snapshot: State,
+}
+
+/// What src/bin/server_persistent.rs does at start-up, `passes` times into the SAME node:
+/// `integration.recover(&state)`, then replay every WAL entry with
+/// `apply_recovered_state(None, deltas)`.
+fn server_startup(
+    store: &InMemoryObjectStore,
+    wal: &InMemoryWalStore,
+    replica: u8,
+    keys: &[(String, bool)],
+    passes: usize,
+) -> Result<Vec<NodeView>, String> {
+    vcore::block_on(async {
+        let node = ReplicatedShardedState::new(ReplicationConfig {
+            replica_id: replica as u64,
+            ..ReplicationConfig::default()
+        });
+        let integ = StreamingIntegration::with_store(Arc::new(store.clone()), streaming_config(), 1);
+        let ask = |verb: &'static str, k: &str| vcore::resp::parse_zc(&[verb.as_bytes().to_vec(), k.as_bytes().to_vec()]);
+        let mut out = Vec::new();
+        for pass in 0..passes {
+            integ
+                .recover(&node)
+                .await
+                .map_err(|e| format!("StreamingIntegration::recover (pass {}): {}", pass + 1, e))?;
+            let mut after_store = Vec::new();
+            for (k, h) in keys {
+                let r = Reply::from_resp(&node.execute(ask(if *h { "HGETALL" } else { "GET" }, k)?).await);
+                after_store.push(if *h { r.sorted_pairs() } else { r });
+            }
+            // WAL replay, as the binary does it
+            let rot = WalRotator::new(wal.clone(), 1 << 20).map_err(|e| e.to_string())?;
+            let entries = rot.recover_all_entries().map_err(|e| format!("WAL replay: {}", e))?;
+            if !entries.is_empty() {
+                let deltas: Vec<ReplicationDelta> = entries.iter().filter_map(|e| e.to_delta().ok()).collect();
+                node.apply_recovered_state(None, deltas);
+            }
+            let (mut after_wal, mut exists) = (Vec::new(), Vec::new());
+            for (k, h) in keys {
+                let r = Reply::from_resp(&node.execute(ask(if *h { "HGETALL" } else { "GET" }, k)?).await);
+                after_wal.push(if *h { r.sorted_pairs() } else { r });
+                exists.push(Reply::from_resp(&node.execute(ask("EXISTS", k)?).await));
+            }
+            let snapshot: State = node.snapshot_state().await.into_iter().collect();
+            out.push(NodeView {
+                after_store,
+                after_wal,
+                exists,
+                snapshot,
+            });
+        }
+        Ok(out)
+    })
+}
+
+/// Compare the node after the server's start-up sequence with the ground truth.
+fn check_server_startup(
+    name: &str,
+    store: &InMemoryObjectStore,
+    wal: &InMemoryWalStore,
+    truth_store: &State,
+    truth_all: &State,
+    keys: &[(String, bool)],
+    replica: u8,
+    modulo: bool,
+) -> Result<(), String> {
+    let views = server_startup(store, wal, replica, keys, 2).map_err(|e| format!("arrangement {}: {}", name, e))?;
+    for (pass, v) in views.iter().enumerate() {
+        let stages: [(&str, &Vec<Reply>, &State); 2] = [
+            ("StreamingIntegration::recover", &v.after_store, truth_store),
+            ("StreamingIntegration::recover + WAL replay", &v.after_wal, truth_all),
+        ];
+        for (stage, got, truth) in stages {
+            // after a second recover() the checkpoint has overwritten what the WAL replay had
+            // merged; only the complete sequence is compared on the second pass
+            if pass == 1 && stage == "StreamingIntegration::recover" {
+                continue;
+            }
+            for ((k, h), g) in keys.iter().zip(got.iter()) {
+                let w = expected_answer(truth, k, *h);
+                if w != *g {
+                    return Err(format!(
+                        "arrangement {}: node after {} (start-up sequence run {}x): {} {:?} answers {} but the merge of what is persisted is {}",
+                        name, stage, pass + 1, if *h { "HGETALL" } else { "GET" }, k, g.show(), w.show()
+                    ));
+                }
+            }
+        }
+        for ((k, h), g) in keys.iter().zip(v.exists.iter()) {
+            let present = match expected_answer(truth_all, k, *h) {
+                Reply::Nil => false,
+                Reply::Array(a) => !a.is_empty(),
+                _ => true,
+            };
+            if *g != Reply::Int(present as i64) {
+                return Err(format!(
+                    "arrangement {}: node after the start-up sequence ({}x): EXISTS {:?} answers {} but the key is {} in the merge of what is persisted",
+                    name, pass + 1, k, g.show(), if present { "present" } else { "absent" }
+                ));
+            }
+        }
+        if let Some(diff) = diff_states(truth_all, &v.snapshot, modulo) {
+            return Err(format!(
+                "arrangement {}: snapshot_state() after the start-up sequence ({}x) is not the merge of what is persisted\n    {}",
+                name, pass + 1, diff
+            ));
+        }
+    }
+    Ok(())
+}
+
+// ---------------------------------------------------------------------------------------
+// boundary layouts
+// ---------------------------------------------------------------------------------------
+
+#[derive(Clone, Debug, Serialize, Deserialize, Hash)]
+struct BoundaryCase {
+    world: WorldSpec,
+    /// 0 checkpoint only (covers every segment, manifest compacted), 1 checkpoint + only older
+    /// (covered, still listed) segments, 2 segments only, 3 WAL only, 4 nothing at all,
+    /// 5 checkpoint covering everything + WAL with newer and older entries,
+    /// 6 an empty manifest and nothing else
+    kind: u8,
+    base: Arrangement,
+    node_replica: u8,
+}
+
+fn boundary_case() -> impl Strategy<Value = BoundaryCase> {
+    (worldgen::world(world_cfg()), 0u8..7, arrangement(), 1u8..=4).prop_map(|(world, kind, base, node_replica)| {
+        BoundaryCase {
+            world,
+            kind,
+            base,
+            node_replica,
+        }
+    })
+}
+
+fn boundary_arrangement(kind: u8, base: &Arrangement) -> Arrangement {
+    let mut a = base.clone();
+    let ck = |compacted: bool, base: &Arrangement| Ckpt {
+        covers: 255,
+        extra: base.checkpoint.as_ref().map(|c| c.extra.clone()).unwrap_or_else(|| vec![false]),
+        compacted,
+        delete_objects: base.checkpoint.as_ref().map(|c| c.delete_objects).unwrap_or(false),
+        timestamp_ms: base.checkpoint.as_ref().map(|c| c.timestamp_ms).unwrap_or(1),
+    };
+    let no_wal = |a: &mut Arrangement| {
+        a.wal_mode = 1;
+        for w in a.place.iter_mut() {
+            *w &= !(1 << 8);
+        }
+    };
+    match kind {
+        0 => {
+            a.n_segments = a.n_segments.max(1);
+            a.checkpoint = Some(ck(true, base));
+            no_wal(&mut a);
+        }
+        1 => {
+            a.n_segments = a.n_segments.max(1);
+            a.checkpoint = Some(ck(false, base));
+            no_wal(&mut a);
+        }
+        2 => {
+            a.n_segments = a.n_segments.max(1);
+            a.checkpoint = None;
+            no_wal(&mut a);
+        }
+        3 => {
+            a.n_segments = 0;
+            a.checkpoint = None;
+        }
+        _ => {
+            // 5: everything that is in a segment is covered; the WAL holds duplicates (older and
+            // newer than the checkpoint's stamps) and, with wal_mode 0/2, updates of its own
+            a.n_segments = a.n_segments.max(1);
+            a.checkpoint = Some(ck(base.checkpoint.as_ref().map(|c| c.compacted).unwrap_or(true), base));
+            a.wal_mode = 0;
+            for (i, w) in a.place.iter_mut().enumerate() {
+                if i % 2 == 0 {
+                    *w |= 1 << 8;
+                }
+            }
+            // the first update is in segment 0 (so a checkpoint exists) and in the WAL
+            a.place[0] = (a.place[0] & 0xff00) | (1 << 8);
+        }
+    }
+    a
+}
+
+fn typed_keys(world: &WorldSpec, extra: Vec<String>) -> Vec<(String, bool)> {
+    let split = world.typed_split.unwrap_or(0) as usize;
+    let mut keys: Vec<(String, bool)> = world.keys.iter().enumerate().map(|(i, k)| (k.clone(), i >= split)).collect();
+    keys.extend(extra.into_iter().map(|k| (k, false)));
+    keys
+}
+
+fn check_boundary(case: &BoundaryCase, ctx: &mut CaseCtx<'_>) -> Result<(), String> {
+    let (d, extra) = worldgen::run(&case.world);
+    let keys = typed_keys(&case.world, extra);
+    let kind = case.kind % 7;
+    ctx.label(match kind {
+        0 => "boundary_checkpoint_only",
+        1 => "boundary_checkpoint_and_only_older_segments",
+        2 => "boundary_segments_only",
+        3 => "boundary_wal_only",
+        4 => "boundary_nothing_at_all",
+        5 => "boundary_checkpoint_covers_everything_plus_wal",
+        _ => "boundary_empty_manifest",
+    });
+    if kind == 4 || kind == 6 || d.is_empty() {
+        let store = InMemoryObjectStore::new();
+        if kind == 6 {
+            ready(ManifestManager::new(store.clone(), PREFIX).save(&Manifest::new(1))).map_err(|e| e.to_string())?;
+        }
+        let empty = State::new();
+        check_server_startup("(empty store)", &store, &InMemoryWalStore::new(), &empty, &empty, &keys, case.node_replica, false)?;
+        ctx.nontrivial(&(kind, &case.world.keys));
+        return Ok(());
+    }
+    let arr = boundary_arrangement(kind, &case.base);
+    let (_, _, b) = check_arrangement("boundary", &d, &arr, &keys, case.node_replica, ctx)?;
+    // the construction really is the boundary it names
+    let ok = match kind {
+        0 => !b.in_checkpoint.is_empty() && b.manifest.segments.is_empty() && b.in_wal.is_empty(),
+        1 => !b.in_checkpoint.is_empty() && b.in_live_segments.is_empty() && !b.manifest.segments.is_empty() && b.in_wal.is_empty(),
+        2 => b.in_checkpoint.is_empty() && !b.in_live_segments.is_empty() && b.in_wal.is_empty(),
+        3 => b.in_checkpoint.is_empty() && b.n_segments == 0 && !b.in_wal.is_empty(),
+        _ => !b.in_checkpoint.is_empty() && b.in_live_segments.is_empty() && !b.in_wal.is_empty(),
+    };
+    if !ok {
+        return Err(format!("harness: boundary kind {} was not constructed (checkpoint {}, live {}, listed {}, wal {})",
+            kind, b.in_checkpoint.len(), b.in_live_segments.len(), b.manifest.segments.len(), b.in_wal.len()));
+    }
+    ctx.nontrivial(case);
+    Ok(())
+}
+
+// ---------------------------------------------------------------------------------------
+// life cycle: node -> delta sink -> workers -> shutdown -> restart, as the binary wires them
+// ---------------------------------------------------------------------------------------
+
+#[derive(Clone, Debug, Serialize, Deserialize, Hash)]
+enum Cmd {
+    Set { key: u8, val: Vec<u8>, ex: Option<u16> },
+    Del { key: u8 },
+    HSet { key: u8, fields: Vec<(u8, Vec<u8>)> },
+    HDel { key: u8, field: u8 },
+    /// explicit flush through the actor handle is not public; a pause lets the bridge tick
+    Pause,
+}
+
+#[derive(Clone, Debug, Serialize, Deserialize, Hash)]
+struct LifeCase {
+    /// 1..=3 sessions (process lifetimes) over one store
+    sessions: Vec<Vec<Cmd>>,
+}
+
+fn life_case() -> impl Strategy<Value = LifeCase> {
+    let val = proptest::collection::vec(any::<u8>(), 0..6);
+    let cmd = prop_oneof![
+        5 => (0u8..4, val.clone(), proptest::option::weighted(0.2, 1u16..1000)).prop_map(|(key, val, ex)| Cmd::Set { key, val, ex }),
+        2 => (0u8..4).prop_map(|key| Cmd::Del { key }),
+        4 => (0u8..3, proptest::collection::vec((0u8..4, val), 1..3)).prop_map(|(key, fields)| Cmd::HSet { key, fields }),
+        2 => (0u8..3, 0u8..4).prop_map(|(key, field)| Cmd::HDel { key, field }),
+        1 => Just(Cmd::Pause),
+    ];
+    proptest::collection::vec(proptest::collection::vec(cmd, 0..10), 1..=3).prop_map(|sessions| LifeCase { sessions })
+}
+
+fn life_keys() -> Vec<(String, bool)> {
+    let mut v: Vec<(String, bool)> = (0..4).map(|i| (format!("s{}", i), false)).collect();
+    v.extend((0..3).map(|i| (format!("h{}", i), true)));
+    v
+}
+
+fn check_lifecycle(case: &LifeCase, ctx: &mut CaseCtx<'_>) -> Result<(), String> {
+    let keys = life_keys();
+    let store = InMemoryObjectStore::new();
+    let argv = |parts: Vec<Vec<u8>>| vcore::resp::parse_zc(&parts);
+    let mut wrote = false;
+    vcore::block_on(async {
+        let mut before: Option<(Vec<Reply>, Vec<Reply>)> = None;
+        for (si, session) in case.sessions.iter().enumerate() {
+            let integ = StreamingIntegration::with_store(Arc::new(store.clone()), streaming_config(), 1);
+            let mut node = ReplicatedShardedState::new(ReplicationConfig::default());
+            integ.recover(&node).await.map_err(|e| format!("session {}: recover: {}", si + 1, e))?;
+            let dump = |node: ReplicatedShardedState| {
+                let keys = keys.clone();
+                async move {
+                    let (mut vals, mut ex) = (Vec::new(), Vec::new());
+                    for (k, h) in &keys {
+                        let c = vcore::resp::parse_zc(&[if *h { b"HGETALL".to_vec() } else { b"GET".to_vec() }, k.as_bytes().to_vec()])?;
+                        let r = Reply::from_resp(&node.execute(c).await);
+                        vals.push(if *h { r.sorted_pairs() } else { r });
+                        let c = vcore::resp::parse_zc(&[b"EXISTS".to_vec(), k.as_bytes().to_vec()])?;
+                        ex.push(Reply::from_resp(&node.execute(c).await));
+                    }
+                    Ok::<_, String>((vals, ex))
+                }
+            };
+            // what the restarted node serves must be what the previous process served last
+            if let Some((vals, ex)) = &before {
+                let (v2, e2) = dump(node.clone()).await?;
+                for (i, (k, h)) in keys.iter().enumerate() {
+                    if vals[i] != v2[i] || ex[i] != e2[i] {
+                        return Err(format!(
+                            "session {}: after restart (StreamingIntegration::recover) {} {:?} answers {} / EXISTS {} but the previous process answered {} / EXISTS {} before its graceful shutdown",
+                            si + 1, if *h { "HGETALL" } else { "GET" }, k, v2[i].show(), e2[i].show(), vals[i].show(), ex[i].show()
+                        ));
+                    }
+                }
+            }
+            let (handles, sender) = integ.start_workers().await.map_err(|e| format!("start_workers: {}", e))?;
+            node.set_delta_sink(sender);
+            for c in session {
+                let cmd = match c {
+                    Cmd::Set { key, val, ex } => {
+                        let mut a = vec![b"SET".to_vec(), format!("s{}", key % 4).into_bytes(), val.clone()];
+                        if let Some(s) = ex {
+                            a.push(b"EX".to_vec());
+                            a.push(s.to_string().into_bytes());
+                        }
+                        argv(a)?
+                    }
+                    Cmd::Del { key } => argv(vec![b"DEL".to_vec(), format!("s{}", key % 4).into_bytes()])?,
+                    Cmd::HSet { key, fields } => {
+                        let mut a = vec![b"HSET".to_vec(), format!("h{}", key % 3).into_bytes()];
+                        for (f, v) in fields {
+                            a.push(format!("f{}", f % 4).into_bytes());
+                            a.push(v.clone());
+                        }
+                        argv(a)?
+                    }
+                    Cmd::HDel { key, field } => argv(vec![
+                        b"HDEL".to_vec(),
+                        format!("h{}", key % 3).into_bytes(),
+                        format!("f{}", field % 4).into_bytes(),
+                    ])?,
+                    Cmd::Pause => {
+                        tokio::time::sleep(std::time::Duration::from_millis(25)).await;
+                        continue;
+                    }
+                };
+                wrote = true;
+                let _ = node.execute(cmd).await;
+            }
+            before = Some(dump(node.clone()).await?);
+            node.clear_delta_sink();
+            handles.shutdown().await;
+        }
+        // a final restart
+        let integ = StreamingIntegration::with_store(Arc::new(store.clone()), streaming_config(), 1);
+        let node = ReplicatedShardedState::new(ReplicationConfig::default());
+        integ.recover(&node).await.map_err(|e| format!("final recover: {}", e))?;
+        if let Some((vals, ex)) = &before {
+            for (i, (k, h)) in keys.iter().enumerate() {
+                let c = vcore::resp::parse_zc(&[if *h { b"HGETALL".to_vec() } else { b"GET".to_vec() }, k.as_bytes().to_vec()])?;
+                let r = Reply::from_resp(&node.execute(c).await);
+                let r = if *h { r.sorted_pairs() } else { r };
+                let c = vcore::resp::parse_zc(&[b"EXISTS".to_vec(), k.as_bytes().to_vec()])?;
+                let e = Reply::from_resp(&node.execute(c).await);
+                if r != vals[i] || e != ex[i] {
+                    return Err(format!(
+                        "after the last restart {} {:?} answers {} / EXISTS {} but the last process answered {} / EXISTS {} before its graceful shutdown",
+                        if *h { "HGETALL" } else { "GET" }, k, r.show(), e.show(), vals[i].show(), ex[i].show()
+                    ));
+                }
+            }
+        }
+        Ok::<(), String>(())
+    })?;
+    ctx.label(match case.sessions.len() {
+        1 => "sessions_1",
+        2 => "sessions_2",
+        _ => "sessions_3",
+    });
+    if wrote && case.sessions.len() >= 2 {
+        ctx.nontrivial(case);
+    }
+    Ok(())
+}
 
 // ---------------------------------------------------------------------------------------
 // recovery racing with a concurrent writer of the same store
@@ -1235,6 +1648,10 @@ fn main() {
 
     s.describe_check("layouts", "ground truth x two arrangements; recover / recover_with_progress / recover_with_wal folds, idempotence, node answers");
     s.run_cases("layouts", s.scale(8_000, 600_000), layout, check_layout);
+    s.describe_check("boundary", "the boundary layouts (checkpoint only / checkpoint + only older segments / segments only / WAL only / nothing at all / checkpoint covering everything + WAL / empty manifest) through every oracle of 'layouts', incl. the server's start-up sequence (StreamingIntegration::recover + WAL replay, twice) compared by GET/HGETALL/EXISTS/snapshot_state");
+    s.run_cases("boundary", s.scale(1_400, 60_000), boundary_case, check_boundary);
+    s.describe_check("lifecycle", "1-3 process lifetimes over one store wired as the binary does (recover, start_workers, set_delta_sink, commands, graceful shutdown): what a restarted node serves = what the previous process served last; non-trivial = >= 2 sessions with writes");
+    s.run_cases("lifecycle", s.scale(400, 12_000), life_case, check_lifecycle);
     s.describe_check(
         "race",
         "one arrangement; a concurrent writer (real Compactor::compact / StreamingPersistence::flush / checkpoint install + manifest compaction) runs before EVERY store call index of recover(), recover_with_progress() and recover_with_wal(): Err (then an undisturbed retry holds everything) or a state that holds everything persisted before recovery started; non-trivial = the writer ran after the manifest read and before the last call, >= 2 listed segments",
